@@ -207,6 +207,8 @@ class SArr:
         self.buf, self.offs, self.shape_cap, self.n = buf, offs, tuple(int(d) for d in shape), n
         self.dtype = as_dtype(dtype) if dtype is not None else int64
         self.vlast = False     # True: logically shape lead+(n,), stored with the variable axis first (see _adv_get Ellipsis)
+        self.forder = False    # True: column-major memory layout (np.asfortranarray input); only matters where numpy's view/copy
+                               # behaviour depends on it (ravel/reshape of a 2-d array copy instead of viewing)
 
     @staticmethod
     def new(vals, shape, n=None, dtype=None):
@@ -274,10 +276,16 @@ class SArr:
         if self.n is not None:
             raise Unsupported(f"{what} on a variable-length array")
 
+    def _f_noncontig(self):
+        return self.forder and _bi.sum(1 for d in self.shape_cap if d > 1) >= 2
+
     def ravel(self):
         if self.n is not None and _bi.all(d == 1 for d in self.shape_cap[1:]):
             return SArr(self.buf, self.offs, (self.shape_cap[0],), self.n, self.dtype)
         self._full("ravel")
+        if self._f_noncontig():
+            # C-order ravel of a column-major array is a copy in numpy
+            return SArr.new(self.flat_list(), (len(self.offs),), None, self.dtype)
         return SArr(self.buf, self.offs, (len(self.offs),), None, self.dtype)
 
     def reshape(self, *shape):
@@ -291,11 +299,15 @@ class SArr:
             shape[i] = len(self.offs) // _bi.max(_prod(shape), 1)
         if _prod(shape) != len(self.offs):
             raise ValueError(f"cannot reshape array of size {len(self.offs)} into shape {tuple(shape)}")
+        if self._f_noncontig():
+            return SArr.new(self.flat_list(), tuple(shape), None, self.dtype)
         return SArr(self.buf, self.offs, tuple(shape), None, self.dtype)
 
     def astype(self, dt, copy=True):
         dt = as_dtype(dt)
-        return SArr.new([_cast_scalar(v, dt) for v in self.flat_list()], self.shape_cap, self.n, dt)
+        r = SArr.new([_cast_scalar(v, dt) for v in self.flat_list()], self.shape_cap, self.n, dt)
+        r.forder = self.forder        # astype(order='K') keeps the layout
+        return r
 
     def tolist(self):
         self._full("tolist")
@@ -1155,7 +1167,11 @@ def arange(a, b=None, step=1, dtype=None):
 
 
 def copy(a):
-    return a.copy() if isinstance(a, SArr) else a
+    if not isinstance(a, SArr):
+        return a
+    r = a.copy()
+    r.forder = a.forder      # np.copy defaults to order='K' (ndarray.copy() to 'C')
+    return r
 
 
 def expand_dims(a, axis):
@@ -1324,6 +1340,19 @@ def repeat(a, k, axis=None):
 def pad(a, width, constant_values=0, mode="constant"):
     if isinstance(a, (list, tuple)):
         a = array(a)          # NB: np.array([]) is float64, as in numpy
+    if a.ndim == 2 and mode == "constant" and a.n is None:
+        (r0, r1), (c0, c1) = [tuple(int(x) for x in w) for w in width]
+        cv = _cast_scalar(constant_values, a.dtype) if not isinstance(constant_values, Sym) else constant_values
+        R, Cc = a.shape_cap
+        fl = a.flat_list()
+        W = c0 + Cc + c1
+        vals = [cv] * (r0 * W)
+        for i in range(R):
+            vals += [cv] * c0 + fl[i * Cc:(i + 1) * Cc] + [cv] * c1
+        vals += [cv] * (r1 * W)
+        out = SArr.new(vals, (r0 + R + r1, W), None, a.dtype)
+        out.forder = a.forder         # np.pad allocates its result in the input's memory order
+        return out
     if a.ndim != 1:
         raise Unsupported("pad nd")
     lo, hi = width if isinstance(width, tuple) else (width, width)
